@@ -490,7 +490,7 @@ func (p *InlineParser) parse(source []byte, container *Block) []*Inline {
 
 					pos = span.End
 					plainStart = pos
-					if i := nodeIndexForPosition(state.unparsed[state.unparsedPos:], pos); i >= 0 {
+					if i := nodeIndexForPosition(state.unparsed[state.unparsedPos:], pos-1); i >= 0 {
 						state.unparsedPos += i
 					} else {
 						state.unparsedPos = len(state.unparsed)
